@@ -150,8 +150,9 @@ class Bucket:
         """
         Generate a new id.
         """
-        rand_node_id_bin = format(random.randint(0, 2 ** (160 - len(self.prefix_id))), "0160b")
-        return binascii.unhexlify(format(int(rand_node_id_bin, 2), "040X"))
+        free_bits = 160 - len(self.prefix_id)
+        prefix = int(self.prefix_id, 2) if self.prefix_id else 0
+        return ((prefix << free_bits) | random.randint(0, 2 ** free_bits - 1)).to_bytes(20, "big")
 
     def owns(self, node_id: bytes) -> bool:
         """
